@@ -12,9 +12,13 @@ import (
 
 // zzFragCompare reads f once contiguously and once through a fragmenting
 // reader whose chunk sizes are symbolic, and compares the results.
-func zzFragCompare(f []byte, maxZeros int) {
+func zzFragCompare(f []byte, maxZeros int) { zzFragCompareL(f, maxZeros, 0) }
+
+// zzFragCompareL: limit > 0 bounds the number of short chunks (the split
+// points stay symbolic), for frames too long for all compositions.
+func zzFragCompareL(f []byte, maxZeros, limit int) {
 	q1, e1 := ReadPacket(&zzContig{b: f})
-	fr := &zzFrag{b: f, name: "chunk", maxZeros: maxZeros, eofWithData: zzBool("eofWithData")}
+	fr := &zzFrag{b: f, name: "chunk", maxZeros: maxZeros, limit: limit, eofWithData: zzBool("eofWithData")}
 	q2, e2 := ReadPacket(fr)
 	zzReach("frag")
 	zzAssert((e1 == nil) == (e2 == nil), "acceptance depends on how the stream is fragmented")
@@ -47,6 +51,13 @@ func ZZ_C07_amode(a []int) {
 // a[0] = allowed consecutive empty reads.
 func ZZ_C07_smode(a []int) {
 	zzFragCompare(zzRefEncode(zzGen(zzShapeOf(a[1:]))), a[0])
+}
+
+// ZZ_C07_splits: a valid frame of shape a[2:] delivered with at most a[1]
+// short chunks at symbolic positions (every pair / triple of split points),
+// a[0] = allowed consecutive empty reads.
+func ZZ_C07_splits(a []int) {
+	zzFragCompareL(zzRefEncode(zzGen(zzShapeOf(a[2:]))), a[0], a[1])
 }
 
 // zzCutCompare delivers a proper prefix of f and then ends or fails.
